@@ -59,6 +59,8 @@ def drive_transformer(pkg, inst, text):
     def has(name):
         return (rel, f"{cls}.{name}") in pkg.repo.funcs
 
+    from lark import Token
+
     def walk(node):
         if isinstance(node, Tree):
             kids = [walk(ch) for ch in node.children]
@@ -66,6 +68,8 @@ def drive_transformer(pkg, inst, text):
             if has(name):
                 return getattr(inst, name)(kids)
             return Tree(node.data, kids)
+        if isinstance(node, Token) and has(node.type):
+            return getattr(inst, node.type)(node)  # terminal callback (lark's Transformer visits tokens too)
         return node
 
     res = walk(tree)
